@@ -80,7 +80,18 @@ func (f *Frame) havocMods(ms ModSet, allowed map[string][]T) State {
 	for _, name := range sortedModKeys(ms) {
 		sort, ok := f.enc.stateSort[name]
 		if !ok {
-			continue
+			// not touched by this encoding so far: it must still get a new version, or a later first
+			// read would see the entry version
+			if strings.HasPrefix(name, "IT_") {
+				continue
+			}
+			sort = f.readSortSafe(name)
+			if sort == "" {
+				f.enc.note("%s: state variable %s of unknown sort is not versioned across a call", f.fname, name)
+				continue
+			}
+			f.enc.stateSort[name] = sort
+			f.enc.declSortOf(sort)
 		}
 		old := stLookup(f.enc, pre, name)
 		nv := f.enc.declConst(f.enc.fresh(name+"@c"), sort)
@@ -677,4 +688,24 @@ func (f *Frame) atFn(es Sort) string {
 	t := atTerm(f.enc, es, T{"x", ArrSort(SInt, es)}, Zero, Zero)
 	_ = t
 	return q("at_" + sortSuffix(es))
+}
+
+func (f *Frame) readSortSafe(name string) (s Sort) {
+	defer func() {
+		if r := recover(); r != nil {
+			s = ""
+		}
+	}()
+	switch {
+	case strings.HasPrefix(name, "Cell_"):
+		return ArrSort(SInt, sortFromSuffix(name[5:]))
+	case name == "held":
+		return ArrSort(SInt, SBool)
+	case strings.HasPrefix(name, "G_"):
+		if obj := f.p.pkg.Types.Scope().Lookup(name[2:]); obj != nil {
+			return f.p.sortOf(obj.Type())
+		}
+		return ""
+	}
+	return f.readSort(name)
 }
